@@ -409,6 +409,12 @@ def f_lang(a):
 
 def f_mask(a):
     g = build(a["G"], a["sr"], a.get("names", "str"))
+    if a.get("tiny") and g.R is us.Float:
+        # the same grammar with float weights around 1e-200: the mask depends on the support only
+        gt = g.spawn()
+        for r in g.rules:
+            gt.add(float(r.w) * 1e-200, r.head, *r.body)
+        g = gt
     lm = BoolCFGLM(g, alg=a["alg"])
     ctx = ustr(a["ctx"])
     for w in a.get("warm", ()):          # earlier queries on the same LM object
